@@ -39,6 +39,8 @@ def run(ck):
     ck.rule('R18.4', 'components are registered with their root type and all their imports')
     ck.rule('R18.5', "one source's failure does not decide another source's outputs")
     ck.rule('R18.6', 'X.qml is type X: the type name is the stem of the path the document is asked for by (shared with C15)')
+    ck.rule('R18.7', 'the walk over the root types of components terminates on cycles (shared with C17)')
+    ck.rule('R18.1n', 'the path normaliser maps every spelling of a directory to one key')
 
     # ---- R18.1 --------------------------------------------------------------------------
     pd = L.fn('qmldir::populate_directories')
@@ -302,3 +304,41 @@ def run(ck):
     s15 = _core6.Shared(ck, 'R18.6', lambda r, k: r == 'R15.6', 'C15:', ' [which type a file provides, and what its outputs are called, must not depend on what else was read before it]')
     c15.run(s15)
     ck.floor('R18.6', s15.count, 7, 'shared C15 R15.6 obligations')
+
+    # ---- R18.7 mutually inheriting components: the ancestor walk (C17 R17.1 / R17.10 on the same facts) ------------------------------------
+    import rules.c17 as c17
+    s17 = _core6.Shared(ck, 'R18.7', lambda r, k: r in ('R17.1', 'R17.10'), 'C17:', ' [a QML component has exactly one super class: a cycle of components is a cycle the walk must notice]')
+    c17.run(s17)
+    ck.floor('R18.7', s17.count, 6, 'shared C17 R17.1 / R17.10 obligations')
+    # ---- R18.3 the header of a custom widget follows the file-name rules (C15 R15.5 on the same facts) -------------------------------------
+    s15b = _core6.Shared(ck, 'R18.3', lambda r, k: r == 'R15.5' and (k.startswith(('case-rule', 'name-template')) or k == 'cli-lowercase-flag'), 'C15:',
+                         ' [the <header> of a custom widget must name the file that generate-ui writes for that component]')
+    c15.run(s15b)
+    ck.floor('R18.3', s15b.count, 8, 'shared C15 R15.5 obligations on the file-name rules')
+    # ---- R18.1n what normalize_path does ------------------------------------------------------------------------------------------------
+    npf = L.fn('qmldir::normalize_path')
+    if npf is None:
+        ck.floor('R18.1n', 0, 1, 'fn qmldir::normalize_path')
+    else:
+        ck.analysed(npf['path'])
+        # the value is `<if .. { A } else { B }>.unwrap_or_else(|_| path.to_owned())`: A and B must resolve `..` and symbolic links
+        vals = list(H.return_exprs(npf['body']))
+        cands = []
+        for v in vals:
+            x = H.strip_refs(v)
+            fb = None
+            if x.get('k') == 'MCall' and x.get('m') in ('unwrap_or_else', 'unwrap_or'):
+                fb = x
+                x = H.strip_refs(x['recv'])
+            cands.extend((y, fb) for y in H.value_exprs(x))
+        bad = []
+        for y, fb in cands:
+            y = H.strip_refs(y)
+            nm_ = y.get('m') if y.get('k') == 'MCall' else (H.callee_decl(y) or '').split('::')[-1] if y.get('k') == 'Call' else None
+            if nm_ not in ('canonicalize_utf8', 'canonicalize'):
+                bad.append(pp(y, maxlen=50))
+        ok = bool(cands) and not bad
+        ck.ob('R18.1n', 'normaliser-resolves-dots-and-links', ok, L.loc(npf['body']),
+              'normalize_path = canonicalize (%d branch(es)); the unchanged path is only the fallback when that fails' % len(cands) if ok else
+              'normalize_path yields %s: `..` components or symbolic links survive, so one directory gets several module ids — the visited test of the discovery does not recognise it '
+              '(mutually importing directories are walked until the path length limit) and components are registered twice' % bad, fn=npf['path'])
